@@ -17,7 +17,7 @@ Hypotheses used below (all decidable on a concrete history, see the examples at 
 * `(run ops).evicted = []` — the orphan pool never overflowed its bound of 100 (an evicted orphan was
                            delivered but is forgotten by design; wall-clock expiry is not modelled).
 -/
-import BV.C02.Lemmas10
+import BV.C02.Lemmas11
 import BV.C02.Witness
 import BV.Generated.C02
 namespace BV.C02
@@ -139,6 +139,21 @@ theorem active_chain_sound_all_ops (ops : List Op) (hwf : WF (mentioned ops)) :
   obtain ⟨D', h1, hi⟩ := run_safe_all ops hwf
   obtain ⟨a, b, c, d⟩ := pathOK'_plain hi hi.path
   exact ⟨validChain_mono (fun x hx => (h1 x).mp hx) (path_valid' hi hi.path), rep_run ops, a, b, c, d⟩
+
+/-- The best-header view (`BestHeader`, `HeaderHashByHeight`, `IsValidHeader`): every op other than a
+header delivery leaves its tip untouched — ProcessBlock, processOrphans, reorganisations,
+InvalidateBlock and ReconsiderBlock never move it. For every state. -/
+theorem best_header_frame (s : State) (o : Op) (hno : ∀ b, o ≠ .header b) :
+    (step s o).1.bestHdr = s.bestHdr :=
+  step_hdr_frame s o hno
+
+/-- … and a header delivery leaves it where it is or moves it to the delivered header, which then
+extends the old tip or has strictly more cumulative work (first-seen rule of the header view). -/
+theorem best_header_rule (s : State) (b : BlockAbs) (n : Node) (hl : lookup s.idx s.bestHdr = some n) :
+    (step s (.header b)).1.bestHdr = s.bestHdr ∨
+    ((step s (.header b)).1.bestHdr = b.hash ∧
+      (b.parent = s.bestHdr ∨ s.wsum s.bestHdr < (step s (.header b)).1.wsum b.hash)) :=
+  processHeader_hdr_rule s b n hl
 
 /-! ### 4. order independence -/
 
